@@ -378,7 +378,11 @@ impl<'a> CompilerState<'a> {
 
         // Create collected literal variables in memory
         self.literal_counter += res.1.len();
-        for k in &res.1 {
+        // Literals are collected in a hash map: create their variables in the order of their
+        // numbering (source order), not in hash order, so that the variable order is reproducible
+        let mut literals: Vec<(&String, &String)> = res.1.iter().collect();
+        literals.sort_by_key(|k| k.0.trim_start_matches("cctmp").parse::<usize>().unwrap_or(0));
+        for k in literals {
             let vb = k.1.as_bytes();
             let mut v = Vec::<VariableValue>::new();
             for c in vb.iter() {
@@ -543,7 +547,11 @@ impl<'a> CompilerState<'a> {
 
         // Create collected literal variables in memory
         self.literal_counter += res.1.len();
-        for k in &res.1 {
+        // Literals are collected in a hash map: create their variables in the order of their
+        // numbering (source order), not in hash order, so that the variable order is reproducible
+        let mut literals: Vec<(&String, &String)> = res.1.iter().collect();
+        literals.sort_by_key(|k| k.0.trim_start_matches("cctmp").parse::<usize>().unwrap_or(0));
+        for k in literals {
             let vb = k.1.as_bytes();
             let mut v = Vec::<VariableValue>::new();
             for c in vb.iter() {
